@@ -184,7 +184,10 @@ def _sample(case):
 def hyp_settings(max_examples, shrink=True, stateful_step_count=None):
     from hypothesis import HealthCheck, Phase, Verbosity, settings
 
-    phases = [Phase.explicit, Phase.generate, Phase.target]
+    # no Phase.target: hypothesis.target() hill-climbs over wide integer draws (case seeds in 0..2^32) for tens of
+    # minutes without running a test (seen in C13/C18 early on and again in a C12 thorough worker at seed 2); modules
+    # that still call target() only feed a score that is then ignored
+    phases = [Phase.explicit, Phase.generate]
     if shrink:
         phases.append(Phase.shrink)
     kw = dict(
